@@ -238,6 +238,11 @@ where
 
     Some(value)
   }
+
+  fn size_hint(&self) -> (usize, Option<usize>) {
+    let remaining = self.index_back - self.index;
+    (remaining, Some(remaining))
+  }
 }
 
 impl<T> ExactSizeIterator for Iterator1D<T>
@@ -249,7 +254,9 @@ where
     + Copy,
 {
   fn len(&self) -> usize {
-    self.steps.len()
+    // remaining items, not the total: adaptors such as `enumerate().rev()` and
+    // `zip(..).rev()` ask for the length of a partially consumed iterator
+    self.index_back - self.index
   }
 }
 
@@ -611,6 +618,11 @@ where
     self.index += 1;
     Some(item)
   }
+
+  fn size_hint(&self) -> (usize, Option<usize>) {
+    let remaining = self.index_back - self.index;
+    (remaining, Some(remaining))
+  }
 }
 
 impl<T> DoubleEndedIterator for Iterator2D<T>
@@ -641,7 +653,8 @@ where
     + Copy,
 {
   fn len(&self) -> usize {
-    self.partition.1 - self.partition.0
+    // remaining items of the partition, not its total size
+    self.index_back - self.index
   }
 }
 
